@@ -25,6 +25,19 @@ fn strings(max_len: usize) -> Vec<String> {
         out.extend(next.iter().cloned());
         layer = next;
     }
+    // texts at and beyond the limits of the numeric types, long digit runs in names, long repetitions
+    for extra in [
+        "18446744073709551615", "18446744073709551616", "-9223372036854775808", "-9223372036854775809", "340282366920938463463374607431768211456", "a18446744073709551615",
+        "a18446744073709551616", "a184467440737095516150000", "a_99999999999999999999999999999999999999999", "0xffffffffffffffffffffffffffffffffffffffff", "0x", "0b", "0B2",
+        "1e400", "-1e400", "1e-400", "0.1e+", "1e99999999999999999999", ".", "-", "+", "INF", "-INF", "NaN", "0b1111111111111111111111111111111111111111111111111111111111111111111111",
+        "07777777777777777777777777777777", "/a/b/c/d/e/f/g/h/i/j/k/l/m/n/o/p/q/r/s/t/u/v/w/x/y/z", "//", "/a//b", "a/", "\u{0}",
+    ] {
+        out.push(extra.to_string());
+    }
+    out.push("a".repeat(128));
+    out.push("a".repeat(129));
+    out.push("9".repeat(400));
+    out.push("\u{20ac}".repeat(43));
     out
 }
 
